@@ -15,7 +15,11 @@ import (
 	"github.com/nspcc-dev/neo-go/pkg/core/native/noderoles"
 	"github.com/nspcc-dev/neo-go/pkg/core/state"
 	"github.com/nspcc-dev/neo-go/pkg/core/transaction"
+	"github.com/nspcc-dev/neo-go/pkg/io"
+	"github.com/nspcc-dev/neo-go/pkg/smartcontract/callflag"
 	"github.com/nspcc-dev/neo-go/pkg/util"
+	"github.com/nspcc-dev/neo-go/pkg/vm/emit"
+	"github.com/nspcc-dev/neo-go/pkg/vm/opcode"
 )
 
 // pickI64 picks one of the given values.
@@ -271,3 +275,105 @@ var guardedKinds = map[string]bool{
 }
 
 var _ = transaction.HighPriority
+
+// ---- the same natively cached value written twice in one block, read in the next one ----------------------------------
+
+// opDoubleWrite: two HALTing committee transactions of ONE block set the same cached setting to different values (the
+// second one is queued in w.follow); append-only / insert-or-overwrite caches then hold what storage, keyed by the
+// setting, has overwritten. Returns the first op and the kind written.
+func (w *world) opDoubleWrite() (*op, string) {
+	r := w.r
+	two := func(lo, hi int64) (int64, int64) {
+		a := w.between(lo, hi)
+		b := w.between(lo, hi)
+		if a == b {
+			b = lo + (a-lo+1)%(hi-lo+1)
+		}
+		return a, b
+	}
+	var p, q *op
+	kind := ""
+	switch r.Intn(8) {
+	case 0, 1:
+		a, b := two(1, 9_0000_0000)
+		kind = "gasPerBlock"
+		p = w.guardedSet("neo.setGasPerBlock", nativehashes.NeoToken, "setGasPerBlock", false, a)
+		q = w.guardedSet("neo.setGasPerBlock", nativehashes.NeoToken, "setGasPerBlock", false, b)
+	case 2:
+		a, b := two(1, 1500_0000_0000)
+		kind = "registerPrice"
+		p = w.guardedSet("neo.setRegisterPrice", nativehashes.NeoToken, "setRegisterPrice", false, a)
+		q = w.guardedSet("neo.setRegisterPrice", nativehashes.NeoToken, "setRegisterPrice", false, b)
+	case 3:
+		a, b := two(0, 3000)
+		kind = "feePerByte"
+		p, q = w.opPolicySetExact(0, a), w.opPolicySetExact(0, b)
+	case 4:
+		a, b := two(1, 60)
+		kind = "execFeeFactor"
+		p, q = w.opPolicySetExact(1, a*10000), w.opPolicySetExact(1, b*10000)
+	case 5:
+		a, b := two(1, 200000)
+		kind = "storagePrice"
+		p, q = w.opPolicySetExact(2, a), w.opPolicySetExact(2, b)
+	case 6:
+		a, b := two(0, 5_0000_0000)
+		kind = "attributeFee"
+		p = w.guardedSet("policy.setAttributeFee", nativehashes.PolicyContract, "setAttributeFee", false, int64(33), a)
+		q = w.guardedSet("policy.setAttributeFee", nativehashes.PolicyContract, "setAttributeFee", false, int64(33), b)
+	default:
+		a, b := two(1, 30000)
+		kind = "msPerBlock"
+		p = w.guardedSet("policy.setMillisecondsPerBlock", nativehashes.PolicyContract, "setMillisecondsPerBlock", false, a)
+		q = w.guardedSet("policy.setMillisecondsPerBlock", nativehashes.PolicyContract, "setMillisecondsPerBlock", false, b)
+	}
+	if p == nil || q == nil {
+		return nil, ""
+	}
+	w.follow = append(w.follow, q)
+	return p, kind
+}
+
+func (w *world) opPolicySetExact(which int, v int64) *op {
+	names := []string{"setFeePerByte", "setExecFeeFactor", "setStoragePrice"}
+	return w.committeeOp("policy."+names[which], nativehashes.PolicyContract, names[which], fmt.Sprint(v), true, false, v)
+}
+
+// opReadSettings: a transaction that READS the natively cached settings and governance answers inside a block and USES
+// them: every answer stays on the result stack, and NEO.getGasPerBlock is the amount of a GAS transfer.
+func (w *world) opReadSettings() *op {
+	p := w.payer()
+	if p < 0 {
+		return nil
+	}
+	bw := io.NewBufBinWriter()
+	for _, g := range []struct {
+		h util.Uint160
+		m string
+		a []any
+	}{
+		{nativehashes.NeoToken, "getRegisterPrice", nil},
+		{nativehashes.PolicyContract, "getFeePerByte", nil},
+		{nativehashes.PolicyContract, "getExecPicoFeeFactor", nil},
+		{nativehashes.PolicyContract, "getStoragePrice", nil},
+		{nativehashes.PolicyContract, "getAttributeFee", []any{int64(33)}},
+		{nativehashes.PolicyContract, "getMillisecondsPerBlock", nil},
+		{nativehashes.NeoToken, "getCommittee", nil},
+		{nativehashes.NeoToken, "getNextBlockValidators", nil},
+		{nativehashes.NeoToken, "getCandidates", nil},
+	} {
+		emit.AppCall(bw.BinWriter, g.h, g.m, callflag.ReadOnly, g.a...)
+	}
+	// GAS.transfer(payer, val, NEO.getGasPerBlock(), nil)
+	emit.Opcodes(bw.BinWriter, opcode.PUSHNULL)
+	emit.AppCall(bw.BinWriter, nativehashes.NeoToken, "getGasPerBlock", callflag.ReadOnly)
+	emit.Bytes(bw.BinWriter, w.val.ScriptHash().BytesBE())
+	emit.Bytes(bw.BinWriter, w.net.Account(p).BytesBE())
+	emit.Opcodes(bw.BinWriter, opcode.PUSH4, opcode.PACK)
+	emit.AppCallNoArgs(bw.BinWriter, nativehashes.GasToken, "transfer", callflag.All)
+	if bw.Err != nil {
+		panic(bw.Err)
+	}
+	tx := w.mkTx(bw.Bytes(), 1_0000_0000, w.net.Single(p))
+	return &op{kind: "native.read", tx: tx, line: fmt.Sprintf("tx %s c=- native.read", sigList(fmt.Sprintf("k%d", p)))}
+}
